@@ -904,7 +904,30 @@ def module_state(ns):
             if k.startswith("__") and k not in ("__all__",):
                 continue
             out[f"{mname}.{k}"] = _fp(v)
+    out.update(process_state())
     return out
+
+
+def process_state():
+    """process-wide interpreter settings a parsing library has no business changing"""
+    import os
+    import sys
+    import warnings
+    import locale
+    import decimal
+    st = {"process.recursionlimit-left-changed": len(O.INTERPRETER_LEAKS), "process.switchinterval": sys.getswitchinterval(), "process.cwd": os.getcwd(),
+          "process.environ": hash(frozenset(os.environ.items())), "process.sys.path": tuple(sys.path), "process.warnings.filters": len(warnings.filters),
+          "process.locale": locale.setlocale(locale.LC_ALL), "process.trace": repr(sys.gettrace()), "process.profile": repr(sys.getprofile()),
+          "process.int_max_str_digits": sys.get_int_max_str_digits(), "process.decimal.prec": decimal.getcontext().prec,
+          "process.stdout": id(sys.stdout), "process.stderr": id(sys.stderr), "process.excepthook": id(sys.excepthook), "process.umask": _umask()}
+    return {k: repr(v) for k, v in st.items()}
+
+
+def _umask():
+    import os
+    m = os.umask(0o22)
+    os.umask(m)
+    return m
 
 
 def state_diff(a, b):
@@ -1205,6 +1228,16 @@ def _plain(v):
     return v
 
 
+def c17_same(gen, ref):
+    """equality of normalised outcomes, except that where the reference has None (absent optional) the generated parser may hold any
+    falsy value: pegen's convention is 'absent = falsy' (a failed one-or-more inside [...] leaves [])"""
+    if ref is None:
+        return gen is None or gen == ("list", []) or gen is False
+    if isinstance(ref, (list, tuple)) and isinstance(gen, (list, tuple)) and type(ref) is type(gen) and len(ref) == len(gen):
+        return all(c17_same(g, r) for g, r in zip(gen, ref))
+    return gen == ref
+
+
 def c17(X, grammar_data, w, repo="/repo"):
     """generate a parser for the grammar with the working tree's generator and compare it with the reference PEG interpreter on the token string w"""
     import os
@@ -1240,7 +1273,7 @@ def c17(X, grammar_data, w, repo="/repo"):
         got = ("EXC:" + type(e).__name__, str(e)[:80])
     ref = pegref.Interp(g, toks, T).run("top")
     rn = (ref[0],) + ((_plain(ref[1]), ref[2]) if ref[0] == "ok" else ())
-    if got != rn:
+    if not c17_same(got, rn):
         return {"kind": "generated-parser-differs-from-PEG-semantics", "observed": repr(got)[:200], "expected": repr(rn)[:200], "input": w,
                 "grammar": text[len(pegref.HEADER):]}
     return None
